@@ -183,7 +183,13 @@ func (r *vRun) connectSNAP() bool {
 	}
 	ok := true
 	for side := 0; side < 2; side++ {
-		a, err := ClientWithOptions(r.config(side), WithSNAP(tok[side], tok[1-side]))
+		cfg := r.config(side)
+		if (r.sc.idx/48)%2 == 1 {
+			// the association is created with an interleaving option that contradicts its own token:
+			// the peer only ever sees the token, so the token decides on both sides
+			cfg.enableInterleaving = !cfg.enableInterleaving
+		}
+		a, err := ClientWithOptions(cfg, WithSNAP(tok[side], tok[1-side]))
 		r.as[side] = a
 		r.logf("e2e connect %d -> %s %d", side, vErrClass(err), time.Since(r.link.start).Milliseconds())
 		if err != nil {
